@@ -313,9 +313,98 @@ impl Ctx<'_> {
     }
 }
 
+impl Ctx<'_> {
+    /// float (and string / array `+`) chains: rounding and overflow make the grouping of `+ - * / **` visible in the value;
+    /// every operand is independently a literal or hidden from the folding pass (a pass that folds only part of a chain
+    /// must not regroup it)
+    fn float_chains(&mut self, cfg: &Cfg) {
+        let lvl = |op: &str| match op {
+            "**" => 4u8,
+            "*" | "/" => 5,
+            _ => 6,
+        };
+        let ap = |op: &str, a: f64, b: f64| match op {
+            "+" => a + b,
+            "-" => a - b,
+            "*" => a * b,
+            "/" => a / b,
+            _ => a.powf(b),
+        };
+        let triples: [[f64; 3]; 12] = [
+            [-1e308, 1e308, 1e308], [1e16, 1.0, 1.0], [0.1, 0.2, 0.3], [1e308, 10.0, 0.1], [2.0, 3.0, 2.0], [1e-320, 1e-5, 1e5], [3.0, 1e-17, 1e-17], [1.5, 2.5, -4.0],
+            [1e200, 1e200, 1e-200], [7.0, 3.0, 0.5], [1e16, -1e16, 1.0], [5e-324, 0.5, 2.0],
+        ];
+        let ops = ["+", "-", "*", "/", "**"];
+        let mut cell = 0u64;
+        for op1 in ops {
+            for op2 in ops {
+                for t in &triples {
+                    cell += 1;
+                    if !cfg.owns(cell) {
+                        continue;
+                    }
+                    let (a, b, c) = (t[0], t[1], t[2]);
+                    // documented grouping: tighter level first, equal levels left to right
+                    let left = lvl(op1) <= lvl(op2);
+                    let want = if left { ap(op2, ap(op1, a, b), c) } else { ap(op1, a, ap(op2, b, c)) };
+                    let other = if left { ap(op1, a, ap(op2, b, c)) } else { ap(op2, ap(op1, a, b), c) };
+                    let discriminating = want.to_bits() != other.to_bits() && !(want.is_nan() && other.is_nan());
+                    for pattern in 0..8u32 {
+                        let leaf = |v: f64, pos: u32| {
+                            let l = crate::ast::float_text(v);
+                            if pattern >> pos & 1 == 1 { format!("hf({l})") } else { l }
+                        };
+                        let (ta, tb, tc) = (leaf(a, 0), leaf(b, 1), leaf(c, 2));
+                        let flat = format!("{ta} {op1} {tb} {op2} {tc}");
+                        let full = if left { format!("({ta} {op1} {tb}) {op2} {tc}") } else { format!("{ta} {op1} ({tb} {op2} {tc})") };
+                        self.rep.evaluations += 1;
+                        self.rep.distinct_case(&flat);
+                        self.rep.count(if discriminating { "float-chain-discriminating-cases" } else { "float-chain-non-discriminating-cases" });
+                        for (text, what) in [(&flat, "grouping"), (&full, "parenthesised-form-disagrees")] {
+                            match real::parse_exec(&format!("{PRELUDE}{text}"), false) {
+                                Outcome::Value(Variable::Float(f)) if f.to_bits() == want.to_bits() || (f.is_nan() && want.is_nan()) => {}
+                                Outcome::Panic(p) if p.kind != PanicKind::Panic => self.rep.inconclusive("resource"),
+                                other => {
+                                    let got = match &other {
+                                        Outcome::Value(v) => canon(v),
+                                        o => o.tag(),
+                                    };
+                                    self.rep.violation(
+                                        &format!("c14:{what}:float:{op1} {op2}:{}", if pattern == 0 { "folded" } else if pattern == 7 { "runtime" } else { "partly-constant" }),
+                                        &format!("`{text}` gave {got}; the documented grouping `{full}` gives {want:?} (the other grouping gives {other:?})"),
+                                        "c14",
+                                        text,
+                                    );
+                                }
+                            }
+                        }
+                    }
+                }
+            }
+        }
+        // string and array concatenation chains with a non-constant head / middle / tail: order of the pieces
+        if cfg.shard == 0 {
+            for pattern in 0..8u32 {
+                let s = |v: &str, pos: u32| if pattern >> pos & 1 == 1 { format!("hs(\"{v}\")") } else { format!("\"{v}\"") };
+                self.template(&format!("{} + {} + {}", s("a", 0), s("b", 1), s("c", 2)), &format!("({} + {}) + {}", s("a", 0), s("b", 1), s("c", 2)), "\"abc\"", "string-chain");
+                let i = |v: i64, pos: u32| if pattern >> pos & 1 == 1 { format!("hi({v})") } else { v.to_string() };
+                self.template(&format!("[{}] + [{}] + [{}]", i(1, 0), i(2, 1), i(3, 2)), &format!("([{}] + [{}]) + [{}]", i(1, 0), i(2, 1), i(3, 2)), "[1, 2, 3]", "array-chain");
+                self.template(&format!("{} - {} - {}", i(10, 0), i(4, 1), i(3, 2)), &format!("({} - {}) - {}", i(10, 0), i(4, 1), i(3, 2)), "3", "partly-constant-int-chain");
+                self.template(&format!("{} / {} / {}", i(100, 0), i(10, 1), i(5, 2)), &format!("({} / {}) / {}", i(100, 0), i(10, 1), i(5, 2)), "2", "partly-constant-int-chain");
+                self.template(&format!("{} - {} + {}", i(10, 0), i(4, 1), i(3, 2)), &format!("({} - {}) + {}", i(10, 0), i(4, 1), i(3, 2)), "9", "partly-constant-int-chain");
+                self.template(&format!("{} / {} * {}", i(100, 0), i(8, 1), i(5, 2)), &format!("({} / {}) * {}", i(100, 0), i(8, 1), i(5, 2)), "60", "partly-constant-int-chain");
+                self.template(&format!("{} % {} * {}", i(100, 0), i(8, 1), i(5, 2)), &format!("({} % {}) * {}", i(100, 0), i(8, 1), i(5, 2)), "20", "partly-constant-int-chain");
+                self.template(&format!("{} << {} >> {}", i(1, 0), i(4, 1), i(2, 2)), &format!("({} << {}) >> {}", i(1, 0), i(4, 1), i(2, 2)), "4", "partly-constant-int-chain");
+                self.template(&format!("{} >> {} << {}", i(7, 0), i(1, 1), i(2, 2)), &format!("({} >> {}) << {}", i(7, 0), i(1, 1), i(2, 2)), "12", "partly-constant-int-chain");
+            }
+        }
+    }
+}
+
 pub fn run(cfg: &Cfg, rep: &mut Report) {
     let deadline = Deadline::new(cfg.budget_s);
     let mut ctx = Ctx { rep };
+    ctx.float_chains(cfg);
     let ints: [i64; 5] = [7, 3, 2, -5, 1];
     let ops: Vec<&'static str> = BIN.iter().map(|(o, _)| *o).collect();
     // operand assignments: each position int or bool
